@@ -19,6 +19,7 @@ def run(ctx):
         ops_array.case_take(ctx, s)
         ops_array.case_setitem(ctx, s)
         ops_array.case_simple(ctx, s)
+        ops_array.case_result_is_new_sequence(ctx, s)
         if i % 4 == 0:
             ops_array.case_concat(ctx)
         if i % 3 == 0:
